@@ -114,6 +114,7 @@ struct Endpoint {
     int keypath = 0; // C++ families: 0 default constructor + set_key(full length), 1 key constructor (re-keying constructs anew)
 };
 
+static bool g_ad_is_own_nonce = false; // incremental sessions: pass the session's own (public) nonce field as the associated data
 static bool g_mask_extract_bad = false; // set by ep_key_objects, reported (and cleared) by the operation that caused it
 
 template <class T> static ascon::aead *make_cpp(Endpoint &e)
@@ -295,9 +296,14 @@ static Bytes ep_encrypt(Endpoint &e, const Bytes &m, const Bytes &ad, Rng *chunk
         break;
     case INC: {
         size_t pos = 0;
-        if (alg == A128) ascon128_aead_start(&e.u.s128, ap, ad.size());
-        else if (alg == A128A) ascon128a_aead_start(&e.u.s128a, ap, ad.size());
-        else ascon80pq_aead_start(&e.u.s80, ap, ad.size());
+        {
+            uint8_t *field = alg == A128 ? e.u.s128.nonce : alg == A128A ? e.u.s128a.nonce : e.u.s80.nonce;
+            const uint8_t *adp = g_ad_is_own_nonce && ad.size() == 16 && memcmp(field, ad.data(), 16) == 0 ? field : ap;
+            if (adp == field) run.probe("inc.ad_is_the_sessions_nonce_field");
+            if (alg == A128) ascon128_aead_start(&e.u.s128, adp, ad.size());
+            else if (alg == A128A) ascon128a_aead_start(&e.u.s128a, adp, ad.size());
+            else ascon80pq_aead_start(&e.u.s80, adp, ad.size());
+        }
         // a third of the chunked packets are processed in place (aead.h allows input == output for the block calls)
         bool inplace = chunker && !m.empty() && chunker->chance(1, 3);
         if (inplace) memcpy(c.p, mp, m.size());
@@ -333,7 +339,7 @@ static Bytes ep_encrypt(Endpoint &e, const Bytes &m, const Bytes &ad, Rng *chunk
     return Bytes(c.p, c.p + std::min(clen, c.n));
 }
 
-static bool g_inc_not_started = false; // set when an incremental receiver could not even start a packet
+static bool g_inc_not_started = false;
 
 // Decrypt through the endpoint's family. *wiped = plaintext buffer all zero afterwards.
 static int ep_decrypt(Endpoint &e, const Bytes &x, const Bytes &ad, Bytes &m_out, size_t *mlen_rep, bool *wiped,
@@ -378,9 +384,13 @@ static int ep_decrypt(Endpoint &e, const Bytes &x, const Bytes &ad, Bytes &m_out
     case INC: {
         if (x.size() < 16) { *mlen_rep = 0; *wiped = true; m_out.clear(); g_inc_not_started = true; return -1; } // a receiver cannot even split off a tag: the library is not called
         size_t pos = 0;
-        if (alg == A128) ascon128_aead_start(&e.u.s128, ap, ad.size());
-        else if (alg == A128A) ascon128a_aead_start(&e.u.s128a, ap, ad.size());
-        else ascon80pq_aead_start(&e.u.s80, ap, ad.size());
+        {
+            uint8_t *field = alg == A128 ? e.u.s128.nonce : alg == A128A ? e.u.s128a.nonce : e.u.s80.nonce;
+            const uint8_t *adp = g_ad_is_own_nonce && ad.size() == 16 && memcmp(field, ad.data(), 16) == 0 ? field : ap;
+            if (alg == A128) ascon128_aead_start(&e.u.s128, adp, ad.size());
+            else if (alg == A128A) ascon128a_aead_start(&e.u.s128a, adp, ad.size());
+            else ascon80pq_aead_start(&e.u.s80, adp, ad.size());
+        }
         bool inplace = chunker && cap != 0 && chunker->chance(1, 3);
         if (inplace) memcpy(m.p, xp, cap);
         while (pos < cap) {
@@ -605,6 +615,14 @@ struct ChannelWorld : World {
         Rng chunker(op.u(3) ^ 77);
         int cls = fam_cls(S.fam);
         sync_explicit_nonce(c, A, "before_send");
+        // the packet's own nonce as associated data (a sequence number authenticated in the clear): for incremental
+        // sessions the caller may hand over the session's public nonce field itself
+        if (cls == INC && (op.u(3) >> 40) % 8 == 0) {
+            int alg0 = fam_alg(S.fam);
+            const uint8_t *field = alg0 == A128 ? A.u.s128.nonce : alg0 == A128A ? A.u.s128a.nonce : A.u.s80.nonce;
+            ad.assign(field, field + 16);
+            adlen = 16;
+        }
         Packet p;
         p.key = A.key;
         p.ad = ad;
@@ -985,6 +1003,7 @@ struct ChannelWorld : World {
 
     void pass(const Plan &plan, Run &run, uint64_t salt, std::vector<Bytes> *res, bool record)
     {
+        g_ad_is_own_nonce = true;
         std::unique_ptr<Ctx> cp(new Ctx());
         Ctx &c = *cp;
         c.run = &run;
